@@ -7,7 +7,7 @@
    Base/PySort.v (CPython's list.sort run with Capacities.__lt__). *)
 From Coq Require Import List ZArith NArith Bool String.
 From FIM Require Import Base.Str Base.PySort Gen.Catalog Gen.CapsGen Model.Caps Model.Catalog18.
-From FIM Require Import Proofs.Catalog18Sizing Proofs.Catalog18Comp Proofs.Catalog18Lt.
+From FIM Require Import Proofs.Catalog18Sizing Proofs.Catalog18Comp Proofs.Catalog18Lt Proofs.Catalog18Hist.
 Import ListNotations.
 Open Scope Z_scope.
 
@@ -168,6 +168,31 @@ Theorem C18_enum_exact :
     nth_error (enum_members comp_catalog) i = Some (type_model_name e, N.of_nat (Datatypes.S i), Some e).
 Proof. exact enum_exact. Qed.
 Print Assumptions C18_enum_exact.
+
+(* ---------------- no state leaks between calls ---------------- *)
+(* Histories of calls (Model/Catalog18.v, hrun): map_capacities_to_instance / generate_component calls interleaved
+   with the caller modifying IN PLACE the request object, its id / label lists and anything earlier calls returned.
+   In the model: the catalogue state is the same after every history, and the response to a call -- wherever it
+   stands in whatever history -- is the function of that call's argument VALUES and the catalogue alone, so
+   C18_sizing / C18_component apply to every call of every history. *)
+Theorem C18_history_state_unchanged : forall ops s, fst (hrun s ops) = s.
+Proof. exact hrun_state_unchanged. Qed.
+Print Assumptions C18_history_state_unchanged.
+
+Theorem C18_map_in_any_history : forall s pre req post,
+  nth_error (snd (hrun s (pre ++ OpMap req :: post))) (List.length pre) = Some (observe_inst_in (s_inst s) req).
+Proof. exact map_in_any_history. Qed.
+Print Assumptions C18_map_in_any_history.
+
+Theorem C18_gen_in_any_history : forall s pre c post,
+  nth_error (snd (hrun s (pre ++ OpGen c :: post))) (List.length pre) = Some (gen_case_val (s_comp s) c).
+Proof. exact gen_in_any_history. Qed.
+Print Assumptions C18_gen_in_any_history.
+
+(* the state every history of the implementation starts from: the two regenerated catalogues *)
+Theorem C18_history_initial_state : s_inst init_state = catalogue /\ s_comp init_state = comp_catalog.
+Proof. exact init_state_is_catalogues. Qed.
+Print Assumptions C18_history_initial_state.
 
 (* ---------------- non-vacuity ---------------- *)
 (* some request has candidates and some has none; the cell list is not trivial; class_ok is not constantly true *)
